@@ -674,6 +674,10 @@ func applyFilter(filter jparse.Node, items reflect.Value, env *environment) (ref
 			res = arrayify(res)
 		}
 
+		// An array of indexes taken from the input data is
+		// wrapped in an interface.
+		res = jtypes.Resolve(res)
+
 		switch {
 		case jtypes.IsArrayOf(res, jtypes.IsNumber):
 			for j, N := 0, res.Len(); j < N; j++ {
